@@ -46,7 +46,9 @@ def instances(tier, seed):
               # residual sum taken AFTER the flatten
               {'fam': 'A2', 'nd': 1}, {'fam': 'A2', 'nd': 2},
               # squeeze of a trailing unit dimension of a 4D activation (dim given as -1 and as 3); concat of several views of one producer
-              {'fam': 'Q2', 'dim': -1}, {'fam': 'Q2', 'dim': 3}, {'fam': 'K4'}]
+              {'fam': 'Q2', 'dim': -1}, {'fam': 'Q2', 'dim': 3}, {'fam': 'K4'},
+              # an excluded layer fed directly by a searchable one, or only through a concat
+              {'fam': 'X2', 'via': 'direct', 'exclude': 'name'}, {'fam': 'X2', 'via': 'cat', 'exclude': 'name'}]
     if tier == 'thorough':
         progs += [{'fam': 'W2', 'nd': 1, 'exclude': 'name', 'mult': 3}, {'fam': 'W2', 'nd': 1, 'exclude': 'name', 'C': 3}]
         progs += [{'fam': 'K3', 'origins': ['f', 's']}, {'fam': 'K3', 'origins': ['s', 's']}, {'fam': 'K3', 'origins': ['f', 'f'], 'C': 3, 'cin': 2}]
